@@ -110,6 +110,8 @@ type handOpts struct {
 	// RawOldStyle: nodes whose children are all raw leaves may omit BlockSizes - the link's Tsize is the size of a raw leaf,
 	// so nothing has to be opened to learn it (unlike old-style nodes over dag-pb children)
 	RawOldStyle bool
+	// NoMixedKids: never put leaves and a subtree side by side under the root
+	NoMixedKids bool
 }
 
 func genHandFileOpt(t *rapid.T, o handOpts) (root *mnode, data []byte, writer, desc string) {
@@ -221,10 +223,21 @@ func genHandFileOpt(t *rapid.T, o handOpts) (root *mnode, data []byte, writer, d
 	levels := 2
 	if n >= 3 && rapid.Bool().Draw(t, "threeLevels") {
 		levels = 3
-		cut := rapid.IntRange(1, n-1).Draw(t, "cut")
-		a, as := interior(kids[:cut], sizes[:cut], 2)
-		b, bs := interior(kids[cut:], sizes[cut:], 2)
-		kids, sizes = []*mnode{a, b}, []uint64{as, bs}
+		if !o.NoMixedKids && rapid.IntRange(0, 2).Draw(t, "mixedKids") == 0 {
+			// leaves and a subtree side by side under the root: [leaf .. leaf, subtree, leaf .. leaf] (no importer at hand lays
+			// files out like this - trickle DAGs come closest - but every reader takes it)
+			lo := rapid.IntRange(1, n-2).Draw(t, "subLo")
+			hi := rapid.IntRange(lo+1, n-1).Draw(t, "subHi")
+			sub, ss := interior(kids[lo:hi], sizes[lo:hi], 2)
+			kids = append(append(append([]*mnode{}, kids[:lo]...), sub), kids[hi:]...)
+			sizes = append(append(append([]uint64{}, sizes[:lo]...), ss), sizes[hi:]...)
+			pattern += "+mixedKids"
+		} else {
+			cut := rapid.IntRange(1, n-1).Draw(t, "cut")
+			a, as := interior(kids[:cut], sizes[:cut], 2)
+			b, bs := interior(kids[cut:], sizes[cut:], 2)
+			kids, sizes = []*mnode{a, b}, []uint64{as, bs}
+		}
 	}
 	root, _ = interior(kids, sizes, 1)
 	if mixed {
